@@ -614,6 +614,8 @@ def run(ctx):
     r18d(ctx)
     r18e(ctx)
     r18f(ctx)
+    from .round12 import r18g
+    r18g(ctx)
 
 
 from ..selftest import Seed, unparse_seed  # noqa: E402
